@@ -19,3 +19,5 @@ def run(ctx, rep):
     lock.rule_L1_pairing(mod, rep, ctx.config)
     lock.rule_L2_guarded_by(mod, rep, ctx.config)
     sync.rule_sched_table(mod, rep)
+    from ..rules import more
+    more.rule_release_after(mod, rep)
